@@ -11,6 +11,11 @@ else:
 if os.path.isdir(os.path.join(out, 'demo')):
     shutil.rmtree(os.path.join(dst, 'demo'), ignore_errors=True)
     shutil.copytree(os.path.join(out, 'demo'), os.path.join(dst, 'demo'))
+for r_, _, fs in os.walk(os.path.join(dst, 'demo')):
+    for f_ in fs:
+        fp = os.path.join(r_, f_)
+        if open(fp, 'rb').read(4) == b'\x7fELF':      # built drivers are rebuilt by run.sh
+            os.remove(fp)
 if os.path.exists(os.path.join(out, 'notes.md')):
     shutil.copy(os.path.join(out, 'notes.md'), os.path.join(dst, 'notes.md'))
 logs = {}
